@@ -373,6 +373,8 @@ type DirectedInput struct {
 	Versions []map[string]string `json:"versions"` // file sets (relative path -> content); histories use more than one
 	Flags    []string            `json:"flags,omitempty"`
 	Args     []string            `json:"args,omitempty"`
+	// MustReject: the input asks a plugin for a type outside its supported set, so a run that exits 0 fails (C09)
+	MustReject bool `json:"must_reject,omitempty"`
 }
 
 func loadKnownFindings() []KnownFinding {
